@@ -106,6 +106,71 @@ def keep(prop, m, sid, caught, verified):
     print("kept", dst)
 
 
+def refactor(tag, r, sid):
+    """evaluate a behaviour-preserving refactoring made by a sub-agent in /tmp/wt_<tag>/_out/<r>/"""
+    wt = f"/tmp/wt_{tag}"
+    d = f"{wt}/_out/{r}"
+    res = {}
+    sh("git checkout -- molli", wt)
+    rc, out = sh(f"git apply --check {d}/patch.diff", wt)
+    res["applies"] = rc == 0
+    if rc:
+        print("patch does not apply", out[-300:])
+        return
+    rc, base = sh(f"/venv/bin/python {d}/equiv.py", wt)
+    res["equiv_clean_exit0"] = rc == 0
+    sh(f"git apply {d}/patch.diff", wt)
+    try:
+        rc, mut = sh(f"/venv/bin/python {d}/equiv.py", wt)
+        res["equiv_same_digest"] = rc == 0 and mut.strip() == base.strip()
+        ok = False
+        for attempt in range(3):
+            rc, t = sh("/venv/bin/python -m pytest -q -rf -p no:cacheprovider --timeout=900 --continue-on-collection-errors", wt)
+            last = t.strip().splitlines()[-1]
+            bad = [l for l in t.splitlines() if l.startswith("FAILED") and not any(a in l for a in ALWAYS_FAIL)]
+            import re
+            mm = re.search(r"(\d+) passed", last)
+            if not bad and mm and int(mm.group(1)) >= 81:
+                ok = True
+                break
+        res["tests"] = last
+        res["tests_unchanged"] = ok
+    finally:
+        sh("git checkout -- molli", wt)
+    print(json.dumps(res))
+    if not all(res.get(k) for k in ("applies", "equiv_clean_exit0", "equiv_same_digest", "tests_unchanged")):
+        print("NOT CONFIRMED as behaviour-preserving - not kept")
+        return
+    c = check(tag.lstrip("R"), None, src=d)
+    if c is None:
+        return
+    dst = f"/verif/seeded/refactors/{sid}"
+    os.makedirs(dst, exist_ok=True)
+    for f in ("patch.diff", "equiv.py", "note.md"):
+        if os.path.exists(f"{d}/{f}"):
+            shutil.copy(f"{d}/{f}", f"{dst}/{f}")
+    verdict = "FALSE-ALARM" if any(v["exit"] == 1 for v in c.values()) else ("REFUSED" if any(v["exit"] == 2 for v in c.values()) else "silent")
+    meta = dict(id=sid, property=tag.lstrip("R"), kind="behaviour-preserving refactoring (independent sub-agent)", confirmed=res,
+                base_commit=sh("git rev-parse --short HEAD", wt)[1].strip(), first_verdict=verdict, first_result=c, verdict=verdict, result=c)
+    json.dump(meta, open(f"{dst}/meta.json", "w"), indent=1)
+    print(sid, verdict)
+
+
+def sweep_refactors():
+    base = "/verif/seeded/refactors"
+    for sid in sorted(os.listdir(base)) if os.path.isdir(base) else []:
+        d = f"{base}/{sid}"
+        meta = json.load(open(f"{d}/meta.json"))
+        c = check(meta["property"], None, src=d)
+        if c is None:
+            meta["verdict"] = "n/a (patch no longer applies)"
+        else:
+            meta["verdict"] = "FALSE-ALARM" if any(v["exit"] == 1 for v in c.values()) else ("REFUSED" if any(v["exit"] == 2 for v in c.values()) else "silent")
+            meta["result"] = c
+        json.dump(meta, open(f"{d}/meta.json", "w"), indent=1)
+        print("%-12s %s" % (sid, meta["verdict"]))
+
+
 def sweep(only=None):
     """re-run every kept seeded change against the current checks; record the outcome in its meta.json"""
     rows = []
@@ -131,6 +196,12 @@ def sweep(only=None):
 
 if __name__ == "__main__":
     cmd = sys.argv[1]
+    if cmd == "refactor":
+        refactor(sys.argv[2], sys.argv[3], sys.argv[4])
+        sys.exit(0)
+    if cmd == "sweep-refactors":
+        sweep_refactors()
+        sys.exit(0)
     if cmd == "sweep":
         sweep(set(sys.argv[2:]) or None)
         sys.exit(0)
